@@ -57,6 +57,12 @@ func writeHeaders(w http.ResponseWriter, headers map[string][]string) {
 			w.Header().Add(key, value)
 		}
 	}
+
+	// configured response headers that do not name a Content-Type must not
+	// leave the JSON body untyped (net/http would sniff text/plain)
+	if w.Header().Get("Content-Type") == "" {
+		w.Header().Set("Content-Type", "application/json")
+	}
 }
 
 func mergeHeaders(baseHeaders, additionalHeaders map[string][]string) map[string][]string {
